@@ -23,7 +23,7 @@ MANIFEST = {
               "and reading the ordered effects on the stream decides the framing, the no-colour case and the returned count for "
               "every input and every writer behaviour; the impl table closes the set of writers."),
     "note": "Trusted: rustc front end; the path enumerator and format_args decoder; C05 for the bytes of the codes. Not analysed: cfg(windows) console impls.",
-    "technique": "static analysis: path enumeration decided per colour case (path feasibility), ordered effect sequences, format_args template decoding with value flow, sibling agreement over the WinconStream impls",
+    "technique": "static analysis: path enumeration decided per colour case (path feasibility), ordered effect sequences, format_args template decoding with value flow, sibling agreement over the WinconStream impls with impl-to-impl delegation followed through resolved callees, linked 4-bit colour code tables by evaluation",
 }
 
 F = "anstyle_wincon::ansi::write_colored"
